@@ -174,7 +174,7 @@ def check(case: Dict[str, Any]) -> CaseInfo:
 @st.composite
 def c06_case(draw):
     trimming = draw(st.sampled_from([False, False, True]))
-    o = Opts(fractional_stamps=True, early_kernels=True, steps=[0, 1] if not trimming else [2, 3], w_launch=9, w_sync=1, w_op=3, w_rt=1, max_top=6, streams=3, ensure_kernel=True, lead_op=True, fault_none_weight=5,
+    o = Opts(fractional_stamps=True, unrounded=True, early_kernels=True, steps=[0, 1] if not trimming else [2, 3], w_launch=9, w_sync=1, w_op=3, w_rt=1, max_top=6, streams=3, ensure_kernel=True, lead_op=True, fault_none_weight=5,
              second_thread=False)
     case = draw(sim_case(o, max_ranks=2))
     all_ranks = [r["rank"] for r in case["ranks"]]
